@@ -96,7 +96,7 @@ def refStep (r : IRef) (t0 : List String) (obs : String) : IRef × String :=
       let trusted := if trusted0.isEmpty then [key] else trusted0
       ({ r with parties := setS r.parties name { key, trusted, algos, nodeId } }, "-")
     | _, _, _, _ => (r, "-")
-  | ["iattempt", att, party, pl] =>
+  | "iattempt" :: att :: party :: pl :: _ =>
     let payload := (Bytes.ofHex (pl.drop 8).toString).getD []
     ({ r with atts := setS r.atts att ({ party, payload } : AttRec) }, "-")
   | ["isign", ki, _, _] =>
